@@ -44,7 +44,7 @@ CLAIMED = {
    text="For each exactly-specified block and each parameter set in the grid, the output (values and count) of the real block equals the specification's, on one-shot delivery and on every drip-feed schedule of the C08 enumeration.",
    note="Trusted: the executable specifications (vcommon::specs and the subject registry). Inputs are fixed boundary vectors per block, not all inputs.", ref="DESIGN.md 3-E3, 5-C10, 6.3"),
  "C12": dict(level="model_checking", engine="envx",
-   technique="C08 enumeration over tagged test vectors: every placement of up to two tags (incl. two on one sample) on a 6-sample vector, crossed with all drip-feed schedules; absolute-index tag multiset oracle, plus 'tags of a delivered sample never change'",
+   technique="C08 enumeration over tagged test vectors: every placement of up to two tags (incl. two on one sample) on a 6-sample vector, crossed with all drip-feed schedules; absolute-index tag multiset oracle, plus 'tags of a delivered sample never change'; plus marker tags through one-to-one blocks on the real multithreaded runner under the deviation-bounded interleaving search",
    text="Tags are converted to absolute output indices the first time their sample is seen; after the flush the multiset must equal the specification (identity, shifted by delay, index/decimation, after-skip), no tag may appear at or beyond the window length, on pre-existing samples, or change on a sample that was already delivered.",
    note="Trusted: harness output port bookkeeping; tag specs in the subject registry.", ref="DESIGN.md 3-E3, 5-C12"),
  "C11": dict(level="exploration", engine="dsp",
@@ -56,7 +56,7 @@ CLAIMED = {
    text="About 110 000 bit streams in the quick tier are fed to the real deframer in pieces. Recovery: every in-bounds frame comes out exactly once, in order, also right after an out-of-bounds frame, shared flags, and noise. Validity: every emitted packet must be encoded (payload + CRC-16/X.25, or within one bit of it when fixing is on) by some flag-delimited, abort-free region of the input bit stream - checked by a validator that knows nothing about the deframer's state machine.",
    note="Trusted: the reference framer and CRC (bitwise from the polynomial), the region validator. Size limits are taken to count the bytes between flags including the CRC, inclusive.", ref="DESIGN.md 3-E6, 5-C13"),
  "C14": dict(level="exploration", engine="formats",
-   technique="exhaustive enumeration of declared finite domains: parse(serialize(x)) over all u8 and a structured set of u32/i32/f32/Complex bit patterns (thorough: all 2^32 per 32-bit type); FileSink->FileSource and AuEncode->AuDecode through the real runner over a length grid and all add orders; SigMF archive members in all 24 orders; EVERY composition of a 12-byte stream into read() results, delivered in lockstep through a FIFO (FileSource) and a loopback socket (TcpSource) against a byte-queue reassembler",
+   technique="exhaustive enumeration of declared finite domains: parse(serialize(x)) over all u8 and a structured set of u32/i32/f32/Complex bit patterns (thorough: all 2^32 per 32-bit type); FileSink->FileSource and AuEncode->AuDecode through the real runner over a length grid and all add orders; SigMF archive members in all 24 orders; EVERY composition of a 12-byte stream into read() results, delivered in lockstep through a FIFO (FileSource) and a loopback socket (TcpSource) against a byte-queue reassembler; plus the file sink under the deviation-bounded interleaving search, and the AU codec blocks under the drip-feed enumeration",
    text="Round trips are bit-exact for every enumerated value; files and AU streams come back with exact counts; SigMF data equals the source bytes for recording pairs and for archives in every member order with unrelated members; and for all 2048 ways of splitting a 12-byte stream into reads (1-byte reads, splits inside a sample) both byte-stream sources reassemble exactly the samples of the byte stream. Exhaustive over the declared domains, not over all values in the quick tier.",
    note="Trusted: the lockstep delivery (FIONREAD on the client socket before each work() call; FIFO writes are synchronous). SigMF reads a regular file whose read() cannot be segmented from outside.", ref="DESIGN.md 3-E6, 5-C14"),
  "C15": dict(level="exploration", engine="crashx",
@@ -68,7 +68,7 @@ CLAIMED = {
    text="Every consumption schedule up to the horizon, from four ring offsets / fill levels, must yield exactly data x repeat, EOF exactly when everything has been emitted and never for an infinite repeat, marker tags once per repetition on its first sample, and no panic; every sequence of again()/done()/count() calls up to depth 8 from finite(0..3) and infinite() must agree with a reference counter and never over/underflow.",
    note="Trusted: harness output port, reference counter, temp files for FileSource/SigMF recording. A runner never calls work() after EOF; the search does not either.", ref="DESIGN.md 3-E3, 5-C16"),
  "C17": dict(level="fault_enumeration", engine="faultx",
-   technique="crash-point enumeration with strace: the sink's syscall history is recorded, then the child is re-run once per write syscall and SIGKILLed at entry of exactly that syscall (plus 'after the last'); open-mode table enumerated over modes x initial file states x sink kinds",
+   technique="crash-point enumeration with strace: the sink's syscall history is recorded, then the child is re-run once per write syscall and SIGKILLed at entry of exactly that syscall (plus 'after the last'); open-mode table enumerated over modes x initial file states x sink kinds; plus deviation-bounded interleaving search of the real FileSink thread against a source thread committing in small pieces (file content vs committed stream)",
    text="Every kill point of a 6-chunk (stream) and 4-packet history, for three open modes and both sinks, must leave a file that is a prefix of the serialised stream holding at least the bytes acknowledged so far (stream sink: consumed from the stream - seen through a consume hook that writes a marker syscall; packet sink: work() returned). The documented open-mode table (create fails iff exists; overwrite leaves exactly the new data; append keeps and adds, creating if absent) is checked for every initial state.",
    note="Trusted: strace's syscall injection (kill at syscall entry), the recorded history being reproducible (recorded twice and compared). Process kill, not power loss. Runs as root: permission-based unwritable files are not exercised.", ref="DESIGN.md 3-E5, 5-C17"),
  "C18": dict(level="fault_enumeration", engine="maps+faultx",
